@@ -76,7 +76,7 @@ impl SwiftField for Field56A {
     where
         Self: Sized,
     {
-        let lines: Vec<&str> = input.lines().collect();
+        let lines = super::field_utils::content_lines(input, "Field 56A")?;
 
         if lines.is_empty() {
             return Err(ParseError::InvalidFormat {
@@ -156,7 +156,7 @@ impl SwiftField for Field56D {
     where
         Self: Sized,
     {
-        let lines: Vec<&str> = input.lines().collect();
+        let lines = super::field_utils::content_lines(input, "Field 56D")?;
 
         if lines.is_empty() {
             return Err(ParseError::InvalidFormat {
